@@ -948,6 +948,18 @@ fn run_truncate(
             .map(|p| (p.off + p.rdh.offset_next as usize) as u64)
             .max()
             .unwrap_or(0);
+        if w.end == itsgen::walker::WalkEnd::Clean {
+            // the cut falls exactly between two packets: nothing is incomplete, so nothing may be reported
+            // at or behind the end of the last packet
+            if let Some(e) = oracle::error_msgs(&r.stderr).iter().find(|e| e.offset.map_or(false, |o| o >= boundary)) {
+                out.fail = Some(tag(Fail::new(
+                    "truncation",
+                    "error-at-clean-end-of-input",
+                    format!("the input ends exactly at a packet boundary ({boundary:#X}) but a message is reported there: {}", clip(&e.text)),
+                )));
+                return out;
+            }
+        }
         if rows_mode {
             // view rows of the truncated run are a prefix of the full run's rows
             let rows: Vec<String> = r.stdout_str().lines().map(|l| l.to_string()).collect();
